@@ -6,6 +6,10 @@ extern template bool run_lattice<float> (bool);  extern template bool run_extrem
 extern template bool run_lattice<double> (bool); extern template bool run_extreme<double> (bool);
 extern template bool run_rounding<float> (bool); extern template bool run_rounding<double> (bool);
 extern template bool run_elongated<float> (bool); extern template bool run_elongated<double> (bool);
+extern template bool run_maxface<float> (bool); extern template bool run_maxface<double> (bool);
+extern template bool run_signed<float> (bool); extern template bool run_signed<double> (bool);
+extern template bool run_negzero<float> (bool); extern template bool run_negzero<double> (bool);
+extern template bool run_guard<float> (bool); extern template bool run_guard<double> (bool);
 }
 using namespace vf;
 
@@ -41,6 +45,25 @@ int main (int argc, char** argv)
     run_stage ("rounding.double", rnd, [&] { return c14::run_rounding<double> (th); });
     run_stage ("extreme.float", ext, [&] { return c14::run_extreme<float> (th); });
     run_stage ("extreme.double", ext, [&] { return c14::run_extreme<double> (th); });
+    const char* mxf = th
+        ? "per-axis (min,max) in {(-W,W),(1,W),(-W,1),(0,1),(W,-W),(W,W),(-1,1),(-W,-W),(1,-W)}, W = numeric max (729 boxes incl. makeInfinite(), makeEmpty(), half spaces, slabs) x origins {-1,0,2}^3 x directions {-3..3}^3 minus 0; exact oracle over a*W+b"
+        : "per-axis (min,max) in {(-W,W),(1,W),(-W,1),(0,1),(W,-W),(W,W)}, W = numeric max (216 boxes incl. makeInfinite(), makeEmpty(), half spaces, slabs) x origins {-1,0,2}^3 x directions {-2..2}^3 minus 0; exact oracle over a*W+b";
+    run_stage ("max-face.float", mxf, [&] { return c14::run_maxface<float> (th); });
+    run_stage ("max-face.double", mxf, [&] { return c14::run_maxface<double> (th); });
+    const char* sgn = th
+        ? "boxes: every (min,max) in {-2..1} per axis incl. flat and inverted (4096) x origins {-3..2}^3 x directions {-2..2}^3 minus 0; exact integer slab oracle"
+        : "boxes: every (min,max) in {-2..1} per axis incl. flat and inverted (4096) x origins {-3..2}^3 x directions {-1,0,1}^3 minus 0; exact integer slab oracle";
+    run_stage ("signed.float", sgn, [&] { return c14::run_signed<float> (th); });
+    run_stage ("signed.double", sgn, [&] { return c14::run_signed<double> (th); });
+    const char* ngz = "boxes: every (min,max) over {-1,0,1} per axis (729) x origins {-1,0,1}^3 x directions {-1,0,1}^3 minus 0 x every distinct non-empty choice of zero components passed as -0.0 (direction: per component; origin, box.min, box.max: per vector)";
+    run_stage ("negzero.float", ngz, [&] { return c14::run_negzero<float> (th); });
+    run_stage ("negzero.double", ngz, [&] { return c14::run_negzero<double> (th); });
+    const char* grd = th
+        ? "origin 0; per-axis (min,max) in {(Q,X),(-X,-Q),(X,max),(-max,-X),(-Q,X),(-X,Q),(0,X),(-X,X)} for X in {E-1,E,E+1,max-2u,max-u,max} (E = fl(max*3/4), u = ulp(max)), (-Q,Q), (Q,-Q) (50^3 boxes) x directions {0,+-3/4,+-(1-eps/2),+-1,+-(1+eps),+-3/2}^3 minus 0; exact __int128 oracle"
+        : "origin 0; per-axis (min,max) in {(Q,X),(-X,-Q),(X,max),(-max,-X)} for X in {E,E+1,max-u,max} (E = fl(max*3/4), u = ulp(max)), (-Q,Q), (Q,-Q) (18^3 boxes) x directions {0,+-3/4,+-(1-eps/2),+-1,+-(1+eps)}^3 minus 0; exact __int128 oracle";
+    run_stage ("guard.float", grd, [&] { return c14::run_guard<float> (th); });
+    run_stage ("guard.double", grd, [&] { return c14::run_guard<double> (th); });
+    R ().sample ("box{(1,-1,-1),(MAX,1,1)} pos=(0,0,0) dir=(1,0,0): slab parameters 1 and MAX, both representable -> the line meets the box, entry=(1,0,0), exit=(MAX,0,0)");
     R ().sample ("box{(0,0,0),(1,1,1)} pos=(-1,-1,1) dir=(1,1,0): grazes the top edge from corner to corner -> hit, ip=(0,0,1)");
     R ().sample ("box{(0,0,0),(3,3,3)} pos=(4,4,4) dir=(1,2,2): line hits, ray points away -> intersects false, findEntryAndExitPoints true");
     R ().sample ("box{(2,0,0),(1,3,3)} (inverted): false for every ray and line");
